@@ -5,6 +5,7 @@ import Mathlib.Algebra.BigOperators.Ring.Finset
 import Mathlib.Tactic.FieldSimp
 import Mathlib.Tactic.Ring
 import Mathlib.Tactic.Linarith
+import Mathlib.Tactic.SplitIfs
 /-!
 # C17 — FFT Taylor coefficients are accurate within their reported error (the parts that are logic)
 -/
@@ -169,5 +170,70 @@ theorem failed_iff_cap (converged : ℕ → Bool) (maxIter : ℕ) :
   · intro hf
     have : (taylorLoop converged maxIter 0).2 = false := by simpa using hf
     simpa using h2 this
+
+/-! ## the radius search -/
+
+def RadState.bracket (s : RadState) : Bool := decide (s.dirChanges > 1) || s.degenerate
+
+/-- a call reports convergence exactly when the range has been found (two direction changes, or degenerate) and this is the
+`(1 + num_extrap)`-th call since then -/
+theorem radStep_converged_iff (ne : Nat) (s : RadState) (i : Nat) (inp : RadIn) :
+    (radStep ne s i inp).1 = true ↔ (s.bracket = true ∧ s.numChanges + 1 ≥ 1 + ne) := by
+  unfold radStep RadState.bracket
+  by_cases hb : (decide (s.dirChanges > 1) || s.degenerate) = true
+  · simp only [hb, if_true, Bool.true_and]
+    by_cases hc : s.numChanges + 1 ≥ 1 + ne
+    · simp [hc]
+    · simp [hc]
+  · simp [hb]
+
+/-- once the range has been found it stays found, and every further call counts -/
+theorem radStep_bracket_mono (ne : Nat) (s : RadState) (i : Nat) (inp : RadIn) (hb : s.bracket = true)
+    (hnc : (radStep ne s i inp).1 = false) :
+    (radStep ne s i inp).2.1.bracket = true ∧ (radStep ne s i inp).2.1.numChanges = s.numChanges + 1 := by
+  unfold RadState.bracket at hb ⊢
+  unfold radStep at hnc ⊢
+  simp only [hb, if_true, Bool.true_and] at hnc ⊢
+  by_cases hc : s.numChanges + 1 ≥ 1 + ne
+  · simp [hc] at hnc
+  · simp only [hc, decide_false, Bool.false_eq_true, if_false]
+    refine ⟨?_, trivial⟩
+    rcases Bool.or_eq_true_iff.mp hb with h | h
+    · have h1 : s.dirChanges > 1 := of_decide_eq_true h
+      simp only [Bool.or_eq_true, decide_eq_true_eq]
+      left
+      cases s.prevDir with
+      | none => exact h1
+      | some d => simp only []; split_ifs <;> omega
+    · simp [h]
+
+/-- **after the range has been found, exactly `num_extrap` further circles are computed**: from a state in which the range is found
+and `c ≤ num_extrap` calls have been counted, the loop stops after exactly `1 + num_extrap - c` more iterations (given that many
+remain before the cap), reporting convergence -/
+theorem radRun_after_bracket (ne : Nat) : ∀ (inputs : List RadIn) (s : RadState) (i c : Nat), s.bracket = true → s.numChanges = c →
+    c ≤ ne → 1 + ne - c ≤ inputs.length →
+    (radRun ne s i inputs).1 = i + (1 + ne - c) ∧ (radRun ne s i inputs).2.1 = true
+  | [], s, i, c, _, _, hc, hl => by simp at hl; omega
+  | inp :: rest, s, i, c, hb, hn, hc, hl => by
+    unfold radRun
+    by_cases hconv : (radStep ne s i inp).1 = true
+    · simp only [hconv, if_true]
+      have := (radStep_converged_iff ne s i inp).mp hconv
+      have : c = ne := by omega
+      subst this
+      constructor <;> simp
+    · have hnc : (radStep ne s i inp).1 = false := by simpa using hconv
+      simp only [hnc, Bool.false_eq_true, if_false]
+      obtain ⟨hb', hn'⟩ := radStep_bracket_mono ne s i inp hb hnc
+      have hlt : c < ne := by
+        rcases Nat.lt_or_ge c ne with h | hge
+        · exact h
+        · have : (radStep ne s i inp).1 = true := (radStep_converged_iff ne s i inp).mpr ⟨hb, by omega⟩
+          rw [this] at hnc; exact Bool.noConfusion hnc
+      have ih := radRun_after_bracket ne rest (radStep ne s i inp).2.1 (i + 1) (c + 1) hb' (by rw [hn', hn]) (by omega)
+        (by simp at hl; omega)
+      constructor
+      · rw [ih.1]; omega
+      · exact ih.2
 
 end Ndt
